@@ -495,9 +495,9 @@ def _mk_iraf(h):
 def _mk_sf(h, integer=False):
     from photutils.detection import StarFinder
     yy, xx = np.mgrid[-3:4, -3:4]
-    k = np.exp(-(xx ** 2 + yy ** 2) / (2 * 1.6 ** 2))
+    k = 0.37 * np.exp(-(xx ** 2 + yy ** 2) / (2 * 1.6 ** 2))     # max != 1: an in-place normalisation shows
     if integer:
-        k = np.rint(100 * k).astype(int)
+        k = np.rint(270 * k).astype(int)
     f = StarFinder(h.q(3.0), k, min_separation=2.0)
     f._held = {'kernel': k}
     return f
@@ -808,6 +808,7 @@ def _key(entry, label, arg):
     if (entry, arg) in SPECIAL_KEYS and 'fit_image' in label:
         return SPECIAL_KEYS[(entry, arg)]
     arg = arg.replace('.parent', '-parent')
+    arg = {'cutout': 'data', 'cutout_mask': 'mask', 'cutout_error': 'error'}.get(arg, arg)
     if entry in FUNC_LABEL:
         fn = label.split('.')[0] if entry != 'image_models' else label
         return f'{fn}/{arg}-modified'
@@ -846,14 +847,19 @@ def run_entry(entry, rep, cond, dseed, on_step=None, dtype=None):
             res = thunk()
         except Exception as e:  # noqa: BLE001
             exc = e
+        step_mods = []
         for k, v in list(h.held.items()):
             if k not in snaps:
                 continue
             now = snap(v)
             r = sdiff(snaps[k], now, k)
             if r:
-                mods.append((label, k, r + (f' (the step raised {type(exc).__name__})' if exc else '')))
+                step_mods.append((label, k, r + (f' (the step raised {type(exc).__name__})' if exc else '')))
                 snaps[k] = now          # re-baseline: report each modification once
+        changed = {m[1] for m in step_mods}
+        # a write through a view shows in the view and in its parent: report it once (as the view);
+        # a parent changed while the view is intact (write outside the view) is reported as '<arg>-parent'
+        mods += [m for m in step_mods if not (m[1].endswith('.parent') and m[1][:-7] in changed)]
         if on_step:
             on_step(label, exc)
         try:
